@@ -158,6 +158,58 @@ type fetchCaseCfg struct {
 	BufBatches    int
 	Restart       bool
 	Gap           bool // flushonack only: a middle segment loses its index, a fresh PartitionLog restored from offset 0 skips it
+	UploadFaults  int  // midflush only: how many segment/index uploads may fail (without effect) during the scheduled run
+	FaultProb     float64
+}
+
+// sentBatch is one batch a producer of the mid-flush mode sent, with what became of it.
+type sentBatch struct {
+	ID, Key    string
+	Raw        []byte
+	N          int
+	Replied    bool
+	Acked      bool
+	AckBase    int64
+	Stored     int // occurrences in the final stored log
+	StoredBase int64
+}
+
+// obsChooser lets a monitor see the action the inner chooser picked; prefer (optional) names labels the workload
+// wants to reach more often than a uniform draw would (taken with probability 1/2 when present).
+type obsChooser struct {
+	inner  chooser
+	rng    *rand.Rand
+	prefer func(label string) bool
+	on     func(label string)
+}
+
+func (c *obsChooser) pick(labels []string) int {
+	var pref []int
+	if c.prefer != nil {
+		for i, l := range labels {
+			if c.prefer(l) {
+				pref = append(pref, i)
+			}
+		}
+	}
+	i := -1
+	if len(pref) > 0 && c.rng.Intn(2) == 0 {
+		i = pref[c.rng.Intn(len(pref))]
+	} else {
+		i = c.inner.pick(labels)
+	}
+	c.on(labels[i])
+	return i
+}
+
+// uploadSegID names the flush a pending upload belongs to: "<topic>/<partition>/<segment base>".
+func uploadSegID(key string) (id string, part string) {
+	k := strings.TrimSuffix(strings.TrimSuffix(key, ".kfs"), ".index")
+	f := strings.Split(k, "/")
+	if len(f) < 4 {
+		return k, ""
+	}
+	return strings.Join(f[1:], "/"), f[1] + "/" + f[2]
 }
 
 var fetchMaxBytes = []int32{1, 60, 61, 62, 100, 150, 400, 5000, 1 << 20, 0}
@@ -172,6 +224,10 @@ func runFetchCase(t *testing.T, r *verifkit.Run, which string, rng *rand.Rand, c
 		BufBatches:    2 + rng.Intn(4),
 		Restart:       rng.Intn(3) == 0,
 		Gap:           rng.Intn(4) == 0,
+	}
+	if fc.Mode == "midflush" && rng.Intn(3) > 0 {
+		fc.UploadFaults = 1
+		fc.FaultProb = []float64{0, 0.03, 0.1}[rng.Intn(3)] // on top of this, the failure of a flush that an append overlapped is preferred
 	}
 	sig = fmt.Sprintf("%+v", fc)
 	synctest.Test(t, func(t *testing.T) {
@@ -205,7 +261,7 @@ func runFetchCase(t *testing.T, r *verifkit.Run, which string, rng *rand.Rand, c
 				for _, f := range refs[key].frames {
 					layout = append(layout, fmt.Sprintf("%s[%d..%d]@%d+%d", f.ID, f.Base, f.Last, f.Pos, len(f.Bytes)))
 				}
-				r.Violation(cls, v.Why+" via "+how, map[string]any{"case": ci, "config": fmt.Sprintf("%+v", fc), "partition": key, "offset": o, "max_bytes": mb, "hw": hw, "returned_bytes": len(got), "log_layout": layout, "s3_keys": s.s3.keys("default/")})
+				r.Violation(cls, v.Why+" via "+how, map[string]any{"case": ci, "config": fmt.Sprintf("%+v", fc), "partition": key, "offset": o, "max_bytes": mb, "hw": hw, "returned_bytes": len(got), "log_layout": layout, "s3_keys": s.s3.keys("default/"), "schedule": s.trace})
 			}
 		}
 		if fc.Mode == "midflush" {
@@ -229,16 +285,46 @@ func runFetchCase(t *testing.T, r *verifkit.Run, which string, rng *rand.Rand, c
 				fetchReqs = append(fetchReqs, plogReq{Kind: "fetch", Topic: "t", Partition: int32(rng.Intn(2)), Offset: int64(rng.Intn(12)), MaxBytes: fetchMaxBytes[rng.Intn(len(fetchMaxBytes)-1)]})
 			}
 			cfg.Actors = append(cfg.Actors, fetchReqs)
+			faulty := fc.UploadFaults > 0
+			if faulty {
+				// uploads may fail without effect: the produce that flushed is answered with an error, the log requeues
+				// the drained batches and a later flush stores them (together with whatever was appended meanwhile)
+				cfg.FaultKinds = []outcome{outFailBefore}
+				cfg.FaultBudget = fc.UploadFaults
+			}
 			s := newScenario(t, cfg)
+			sent := map[string]*sentBatch{}
+			var sentOrder []*sentBatch
+			for _, reqs := range prod {
+				for _, rq := range reqs {
+					sb := &sentBatch{ID: rq.BatchID, Key: fmt.Sprintf("t/%d", rq.Partition), Raw: rq.Batch, N: rq.NRecords}
+					sent[rq.BatchID] = sb
+					sentOrder = append(sentOrder, sb)
+				}
+			}
 			var fetched []plogRes
 			inWindow := false
 			s.onReply = func(s *scenario, res plogRes) {
+				if res.Req.Kind == "produce" {
+					if sb := sent[res.Req.BatchID]; sb != nil {
+						sb.Replied = true
+						if res.Err != "" || res.Code != 0 {
+							r.Count("midflush_produces_answered_with_error", 1)
+							r.Seen("midflush_produce_errors", fmt.Sprintf("code=%d err=%q", res.Code, res.Err))
+						}
+					}
+				}
 				if res.Err != "" || res.Code != 0 {
 					return
 				}
 				switch res.Req.Kind {
 				case "produce":
-					refs[fmt.Sprintf("t/%d", res.Req.Partition)].add(res.Req.BatchID, res.Base, res.Req.NRecords, res.Req.Batch)
+					if faulty {
+						sb := sent[res.Req.BatchID]
+						sb.Acked, sb.AckBase = true, res.Base
+					} else {
+						refs[fmt.Sprintf("t/%d", res.Req.Partition)].add(res.Req.BatchID, res.Base, res.Req.NRecords, res.Req.Batch)
+					}
 				case "fetch":
 					fetched = append(fetched, res)
 					if len(s.sc.snapshot()) > 0 {
@@ -249,9 +335,164 @@ func runFetchCase(t *testing.T, r *verifkit.Run, which string, rng *rand.Rand, c
 					}
 				}
 			}
-			s.run(&rngChooser{rng: rng})
+			// evidence only: was a produce for the partition started while one of its flushes was at the upload gate,
+			// and did that flush's upload then fail?
+			pendingFlush := map[string]string{} // flush id -> partition
+			overlapped := map[string]bool{}
+			watch := func(s *scenario) {
+				cur := map[string]string{}
+				for _, op := range s.sc.snapshot() {
+					if op.Kind == "upload_segment" || op.Kind == "upload_index" {
+						id, part := uploadSegID(op.Key)
+						cur[id] = part
+					}
+				}
+				for id := range overlapped {
+					if _, ok := cur[id]; !ok {
+						delete(overlapped, id)
+					}
+				}
+				pendingFlush = cur
+			}
+			var ch chooser = &rngChooser{rng: rng, faultProb: fc.FaultProb}
+			if faulty {
+				s.onQuiescent = watch
+				flushOfFail := func(label string) string {
+					if !strings.HasPrefix(label, "fail:") {
+						return ""
+					}
+					for _, op := range s.sc.snapshot() {
+						if "fail:"+op.label() == label {
+							id, _ := uploadSegID(op.Key)
+							return id
+						}
+					}
+					return ""
+				}
+				ch = &obsChooser{inner: ch, rng: rng, prefer: func(label string) bool { id := flushOfFail(label); return id != "" && overlapped[id] }, on: func(label string) {
+					var a, idx int
+					if n, _ := fmt.Sscanf(label, "start:a%d#%d", &a, &idx); n == 2 {
+						if a < len(prod) && idx < len(prod[a]) {
+							part := fmt.Sprintf("t/%d", prod[a][idx].Partition)
+							for id, p := range pendingFlush {
+								if p == part {
+									overlapped[id] = true
+								}
+							}
+						}
+						return
+					}
+					if strings.HasPrefix(label, "fail:") {
+						r.Count("midflush_upload_failures_injected", 1)
+						if id := flushOfFail(label); id != "" {
+							if overlapped[id] {
+								r.Count("midflush_failed_uploads_of_a_flush_overlapped_by_an_append", 1)
+							}
+							delete(overlapped, id)
+						}
+					}
+				}}
+			}
+			s.run(ch)
+			s.onQuiescent = nil
+			if faulty {
+				r.Count("midflush_cases_with_upload_fault_budget", 1)
+				// let whatever is still held at a gate finish, then store what the log still buffers (a failed flush that
+				// nobody retried leaves its batches in the write buffer): the reference is the FINAL STORED log
+				for g := 0; g < 50 && len(s.sc.snapshot()) > 0; g++ {
+					for _, op := range s.sc.snapshot() {
+						s.sc.complete(op, outOK)
+					}
+					synctest.Wait()
+					s.collect()
+				}
+				s.sc.gated = map[string]bool{}
+				flushOK := true
+				for p := int32(0); p < 2; p++ {
+					plog, err := s.hs[s.cur].getPartitionLog(context.Background(), "t", p)
+					if err == nil {
+						err = plog.Flush(context.Background())
+					}
+					if err != nil {
+						flushOK = false
+						r.Inconclusive(fmt.Sprintf("case %d: final flush of t/%d failed: %v", ci, p, err))
+					}
+				}
+				synctest.Wait()
+				s.collect()
+				if !flushOK { // no reference without the final stored log: the case decides nothing
+					s.teardown()
+					return
+				}
+				// Every batch a producer sent and that is found in the stored log belongs to the reference, whether its
+				// produce was acknowledged or answered with an error (the log keeps such batches and stores them later).
+				// Stored frames are matched with sent batches ignoring the 8-byte base offset.
+				anomaly := func(class, why string, extra map[string]any) {
+					if which != "C03" || !flushOK {
+						return
+					}
+					extra["case"], extra["config"], extra["schedule"], extra["s3_keys"] = ci, fmt.Sprintf("%+v", fc), s.trace, s.s3.keys("default/")
+					var prods []string
+					for _, sb := range sentOrder {
+						prods = append(prods, fmt.Sprintf("%s -> %s replied=%v acked=%v base=%d stored=%dx at %d", sb.ID, sb.Key, sb.Replied, sb.Acked, sb.AckBase, sb.Stored, sb.StoredBase))
+					}
+					extra["sent_batches"] = prods
+					r.Violation(class, why, extra)
+				}
+				for p := int32(0); p < 2; p++ {
+					key := fmt.Sprintf("t/%d", p)
+					segs := s.committedSegments("t", p, true)
+					sort.Slice(segs, func(i, j int) bool { return segs[i].Base < segs[j].Base })
+					for _, seg := range segs {
+						if seg.Err != "" {
+							anomaly("stored_log_is_not_a_sequence_of_batches", fmt.Sprintf("segment %s of %s cannot be split into batches: %s", seg.Key, key, seg.Err), map[string]any{})
+							continue
+						}
+						for _, raw := range seg.RawBatch {
+							base := int64(binary.BigEndian.Uint64(raw[0:8]))
+							var m *sentBatch
+							for _, sb := range sentOrder {
+								if sameBatchIgnoringBase(raw, sb.Raw) {
+									m = sb
+									break
+								}
+							}
+							switch {
+							case m == nil:
+								anomaly("stored_bytes_that_no_producer_appended", fmt.Sprintf("%s holds a %d-byte frame at offset %d in %s that matches no batch any producer sent", key, len(raw), base, seg.Key), map[string]any{})
+							case m.Key != key:
+								anomaly("stored_other_partitions_batch", fmt.Sprintf("%s holds batch %s at offset %d, which was produced to %s", key, m.ID, base, m.Key), map[string]any{})
+							default:
+								m.Stored++
+								if m.Stored == 1 {
+									m.StoredBase = base
+								} else {
+									anomaly("appended_batch_stored_more_than_once", fmt.Sprintf("%s holds batch %s at offset %d and again at offset %d (%s): a fetch returns bytes that were appended once, twice", key, m.ID, m.StoredBase, base, seg.Key), map[string]any{})
+								}
+							}
+						}
+					}
+				}
+				for _, sb := range sentOrder {
+					switch {
+					case sb.Acked:
+						if sb.Stored == 0 {
+							anomaly("acknowledged_batch_not_in_the_log", fmt.Sprintf("batch %s was acknowledged at offset %d of %s but the final log does not hold it", sb.ID, sb.AckBase, sb.Key), map[string]any{})
+						} else if sb.StoredBase != sb.AckBase {
+							anomaly("acknowledged_batch_at_another_offset", fmt.Sprintf("batch %s was acknowledged at offset %d of %s but the log holds it at offset %d", sb.ID, sb.AckBase, sb.Key, sb.StoredBase), map[string]any{})
+						}
+						refs[sb.Key].add(sb.ID, sb.AckBase, sb.N, sb.Raw)
+					case sb.Stored > 0:
+						r.Count("midflush_unacknowledged_batches_found_stored", 1)
+						refs[sb.Key].add(sb.ID, sb.StoredBase, sb.N, sb.Raw)
+					case sb.Replied:
+						r.Count("midflush_refused_batches_not_in_the_log", 1) // refused before the append (e.g. back-pressure): fine
+					}
+				}
+			}
 			// judge mid-run fetches against the FINAL reference: a fetch may only ever return acked-or-in-flight
-			// appended frames, all of which are in the final log (no faults here, every produce is acked)
+			// appended frames, all of which are in the final log (without faults every produce is acked; with faults the
+			// reference was completed from the stored log above)
 			refs["t/0"].seal()
 			refs["t/1"].seal()
 			for _, f := range fetched {
